@@ -206,7 +206,25 @@ pub fn run(ctx: &Ctx) {
                 ctx.sample("keyring history", 1, || json!({"initial_state": sname, "names": expect.iter().map(|e| e.0.clone()).collect::<Vec<_>>(), "final_file": after_text}));
             }
         }
-        if !ok_history || expect.len() < 2 {
+        if !ok_history {
+            return;
+        }
+        // a generation whose write fails (file size limit) must leave the keyring exactly as it was
+        if h % 3 == 0 {
+            let before = std::fs::read(&f).unwrap_or_default();
+            if before.len() > 600 {
+                let o = Cmd::new(&wd.path, &["key", "generate", "-o", "keyring.txt", "--env-pass"]).pass("pw").stdin(Stdin::Bytes(b"late-comer\n".to_vec())).fsize_limit(1).run();
+                ctx.eval();
+                let after = std::fs::read(&f).ok();
+                if o.exit == Exit::Code(1) && after.as_deref() == Some(&before[..]) {
+                    ctx.seen("generation whose write fails leaves the keyring untouched");
+                } else if o.exit != Exit::Code(0) {
+                    ctx.violation("C14:failed-generation-destroyed-or-altered-the-keyring", json!({"initial_state": sname, "exit": o.exit.describe(), "stderr": o.stderr_s(), "len_before": before.len(), "len_after": after.as_ref().map(|a| a.len())}));
+                    return;
+                }
+            }
+        }
+        if expect.len() < 2 {
             return;
         }
         // end of history: the real binary can use the keys against each other
